@@ -189,10 +189,11 @@ def try_to_save_module(hashed_grammar, file_io, module, lines, pickling=True, ca
     except OSError:
         p_time = None
         pickling = False
-    if p_time is not None and read_time is not None:
-        # The file might have been modified after it was read. Never record a
-        # newer time than the one of the content that was actually parsed.
-        p_time = min(p_time, read_time)
+    if read_time is not None:
+        # The file might have been modified (or removed) after it was read.
+        # Never record a newer time than the one of the content that was
+        # actually parsed.
+        p_time = read_time if p_time is None else min(p_time, read_time)
 
     item = _NodeCacheItem(module, lines, p_time)
     _set_cache_item(hashed_grammar, path, item)
